@@ -156,6 +156,60 @@ func checkFailureFlags(c *report.Ctx) {
 	}
 }
 
+// constRecording is one constant a call records through argument idx, with the facts known whenever it is that
+// constant which is recorded. A call whose argument is written out has one; a call that is handed a joined value
+// (`kind := A; if c { kind = B }; record(kind)`, or the result of a helper that classifies and returns the kind)
+// has one per incoming edge of the join.
+type constRecording struct {
+	call  ssa.CallInstruction
+	kind  string
+	facts []an.Fact
+}
+
+// constRecordings lists what the calls of callee in f record through argument idx; values that are not string
+// constants are left out (the rules count what they get). distinct is the number of different (call, constant)
+// pairs: two for `if c { record(A) } else { record(B) }` and for `record(φ[A, B])` alike.
+func constRecordings(f *ssa.Function, facts *an.Facts, callee string, idx int) (recs []constRecording, distinct int) {
+	type key struct {
+		call ssa.CallInstruction
+		kind string
+	}
+	seen := map[key]bool{}
+	for _, call := range an.CallsTo(f, callee) {
+		if idx >= len(call.Common().Args) {
+			continue
+		}
+		for _, jc := range facts.JoinCases(call.Common().Args[idx], call.Block()) {
+			s, ok := an.ConstString(jc.Val)
+			if !ok {
+				continue
+			}
+			recs = append(recs, constRecording{call, s, jc.Facts})
+			if !seen[key{call, s}] {
+				seen[key{call, s}] = true
+				distinct++
+			}
+		}
+	}
+	return recs, distinct
+}
+
+// recordingCount counts the recordings of constRecordings the way the calls were counted before joins were read
+// per edge: a call counts once per different constant it can record, and once if it records no constant at all.
+func recordingCount(f *ssa.Function, facts *an.Facts, callee string, idx int) int {
+	recs, n := constRecordings(f, facts, callee, idx)
+	has := map[ssa.CallInstruction]bool{}
+	for _, r := range recs {
+		has[r.call] = true
+	}
+	for _, call := range an.CallsTo(f, callee) {
+		if !has[call] {
+			n++
+		}
+	}
+	return n
+}
+
 // checkExitClassification: an unexpected exit is recorded as Runtime.ExitError when the process is this
 // generation's runtime and as Extension.Crash otherwise, and only when no shutdown is in progress.
 func checkExitClassification(c *report.Ctx) {
@@ -183,23 +237,25 @@ func checkExitClassification(c *report.Ctx) {
 		return cl != nil && strings.HasSuffix(an.Callee(cl), "shutdownContext.isShuttingDown") && !ft.Val
 	}
 	want := map[string]bool{"Runtime.ExitError": true, "Extension.Crash": false}
-	n := 0
 	var bad []string
 	pos := fpos(f)
-	for _, call := range an.CallsTo(f, "L/appctx.StoreFirstFatalError") {
-		s, ok := an.ConstString(call.Common().Args[1])
-		if !ok {
-			continue
-		}
+	// (read per incoming edge where the kind is a joined value: the classification may be computed first and
+	// recorded by one call)
+	recs, n := constRecordings(f, facts, "L/appctx.StoreFirstFatalError", 1)
+	seenBad := map[string]bool{}
+	for _, r := range recs {
+		s := r.kind
 		isRt, known := want[s]
+		msg := ""
 		if !known {
-			bad = append(bad, "records "+s)
-			continue
+			msg = "records " + s
+		} else if !anyFact(r.facts, isRuntimeName(isRt)) || !anyFact(r.facts, notShutting) {
+			msg = s + " not under (process is the runtime)=" + sprintf("%v", isRt) + " and !isShuttingDown()"
+			pos = an.InstrPos(r.call)
 		}
-		n++
-		if !facts.Holds(call.Block(), isRuntimeName(isRt)) || !facts.Holds(call.Block(), notShutting) {
-			bad = append(bad, s+" not under (process is the runtime)="+sprintf("%v", isRt)+" and !isShuttingDown()")
-			pos = an.InstrPos(call)
+		if msg != "" && !seenBad[msg] {
+			seenBad[msg] = true
+			bad = append(bad, msg)
 		}
 	}
 	sort.Strings(bad)
